@@ -424,3 +424,198 @@ pub fn mask_str(m: &[bool]) -> String {
 pub fn parse_mask(s: &str) -> Vec<bool> {
     s.chars().map(|c| c == '1').collect()
 }
+
+// ---------------------------------------------------------------------------------------------
+// Deviation-bounded medium / large states
+
+/// Cell-centred m^d lattice: positions anchor + (2k+1)/(2m) * width (all dyadic for m = 2, 4: exact ties
+/// everywhere, no generator on a wall).
+pub fn centred_lattice_points(m: usize, b: &BoxSpec, dim: usize) -> Vec<DVec3> {
+    let mut pts = vec![];
+    let r = |active: bool| if active { 0..m } else { 0..1 };
+    for i in r(true) {
+        for j in r(dim >= 2) {
+            for k in r(dim >= 3) {
+                let f = v3((2 * i + 1) as f64, (2 * j + 1) as f64, (2 * k + 1) as f64) / (2 * m) as f64;
+                let mut p = b.anchor + f * b.width;
+                if dim <= 1 {
+                    p.y = GARBAGE[(i + 1) % 3];
+                }
+                if dim <= 2 {
+                    p.z = GARBAGE[(i + j) % 3];
+                }
+                pts.push(p);
+            }
+        }
+    }
+    pts
+}
+
+/// A fixed pseudo-random (Kronecker sequence) pool of `n` points in general position: committed by construction
+/// (pure function of the index), the same for every run and seed.
+pub fn kronecker_points(n: usize, b: &BoxSpec, dim: usize) -> Vec<DVec3> {
+    // reciprocals of the plastic-number family: a classical low-discrepancy additive recurrence
+    let (a1, a2, a3) = (0.819_172_513_396_164_4_f64, 0.671_043_606_703_789_2_f64, 0.549_700_477_901_970_2_f64);
+    (0..n)
+        .map(|i| {
+            let t = (i + 1) as f64;
+            let f = v3((0.5 + a1 * t).fract(), (0.5 + a2 * t).fract(), (0.5 + a3 * t).fract());
+            // keep away from the walls by 1/64 so that no generic cell degenerates against a wall
+            let f = v3(1. / 64., 1. / 64., 1. / 64.) + f * (1. - 1. / 32.);
+            let mut p = b.anchor + f * b.width;
+            if dim <= 1 {
+                p.y = GARBAGE[i % 3];
+            }
+            if dim <= 2 {
+                p.z = GARBAGE[(i + 1) % 3];
+            }
+            p
+        })
+        .collect()
+}
+
+/// All subsets of 0..n whose complement has at most r elements (the full set first).
+pub fn complement_subsets(n: usize, r: usize) -> Vec<Vec<usize>> {
+    let mut out = vec![(0..n).collect::<Vec<usize>>()];
+    for rem in subsets_upto(n, r.min(n.saturating_sub(1))) {
+        out.push((0..n).filter(|i| !rem.contains(i)).collect());
+    }
+    out
+}
+
+fn removed_tag(n: usize, sub: &[usize]) -> String {
+    let rem: Vec<usize> = (0..n).filter(|i| !sub.contains(i)).collect();
+    format!("all-{}", if rem.is_empty() { "0".to_string() } else { format!("[{}]", idx_list(&rem)) })
+}
+
+/// State of a deviation-bounded family: the whole pool minus the listed complement.
+pub fn make_state_complement(dim: usize, periodic: bool, b: &BoxSpec, alpha: &str, pool: &[DVec3], sub: &[usize]) -> State {
+    let mut st = make_state(dim, periodic, b, alpha, pool, sub);
+    st.id = format!("{}|{}|{}|{}", dim_tag(dim, periodic), b.name, alpha, removed_tag(pool.len(), sub));
+    st
+}
+
+/// Deviation-bounded medium / large states (8..125 generators): r-tree inner nodes, early termination by the
+/// safety radius, cells with many faces, long connectivity arrays, more items than worker threads.
+///
+/// * `L4c`: cell-centred 4^d lattice (64 / 16 generators; every vertex of every cell is an exact 8-fold tie),
+///   with <= r generators removed;
+/// * `L2c`: cell-centred 2^d lattice, every non-empty subset (3D: 255, 2D: 15);
+/// * `K20` / `K16` / `K12`: Kronecker pool in general position with <= r removed;
+/// * thorough only: the complete wall-to-wall lattice {0..4}/4 (125 generators, 98 of them on walls) with <= 1 removed.
+pub fn medium_families(thorough: bool, dims: &[usize], periodic_opts: &[bool]) -> Vec<(String, Vec<State>)> {
+    let mut out = vec![];
+    let boxes = box_menu(false);
+    for &dim in dims {
+        for &periodic in periodic_opts {
+            for b in &boxes {
+                let mut add_c = |alpha: &str, pool: Vec<DVec3>, r: usize| {
+                    let sts: Vec<State> = complement_subsets(pool.len(), r).iter().map(|s| make_state_complement(dim, periodic, b, alpha, &pool, s)).collect();
+                    out.push((format!("{}|{}|{} pool={} removed<={}", dim_tag(dim, periodic), b.name, alpha, pool.len(), r), sts));
+                };
+                match dim {
+                    3 => {
+                        add_c("L4c", centred_lattice_points(4, b, 3), if thorough { 2 } else { 1 });
+                        add_c("K20", kronecker_points(20, b, 3), if thorough { 2 } else { 1 });
+                        if thorough && !periodic {
+                            add_c("L3b", lattice_points(L3B, b, 3, false), 1);
+                        }
+                    }
+                    2 => {
+                        add_c("L4c", centred_lattice_points(4, b, 2), if thorough { 3 } else { 2 });
+                        add_c("K16", kronecker_points(16, b, 2), if thorough { 2 } else { 1 });
+                    }
+                    _ => {
+                        add_c("K12", kronecker_points(12, b, 1), if thorough { 3 } else { 2 });
+                    }
+                }
+                if dim >= 2 {
+                    let pool = centred_lattice_points(2, b, dim);
+                    let sts: Vec<State> = subsets_upto(pool.len(), pool.len()).iter().map(|s| make_state(dim, periodic, b, "L2c", &pool, s)).collect();
+                    out.push((format!("{}|{}|L2c pool={} all subsets", dim_tag(dim, periodic), b.name, pool.len()), sts));
+                }
+            }
+        }
+    }
+    out
+}
+
+static THOROUGH_MENU: std::sync::atomic::AtomicBool = std::sync::atomic::AtomicBool::new(false);
+
+/// Select the thorough (larger) mask menu for states with more than `full_upto` generators.
+pub fn set_thorough_menus(on: bool) {
+    THOROUGH_MENU.store(on, std::sync::atomic::Ordering::Relaxed);
+}
+
+/// Evenly spaced indices of 0..n (at most k of them, first and last included).
+fn spaced(n: usize, k: usize) -> Vec<usize> {
+    if n <= k {
+        return (0..n).collect();
+    }
+    let mut v: Vec<usize> = (0..k).map(|j| j * (n - 1) / (k - 1)).collect();
+    v.dedup();
+    v
+}
+
+/// Mask menu: every mask for n <= full_upto; beyond that a deviation-bounded menu: none (= full build), all
+/// false, all true, single active cells, single inactive cells, pairs of active / inactive cells, and six
+/// structured patterns (even / odd / halves / every third). Thorough: every single (in)active cell, every pair of
+/// active cells for n <= 20, every pair of inactive cells for n <= 12. Quick: 8 evenly spaced single active
+/// cells, 4 (n > 24) or 8 single inactive cells, all pairs only for n <= 6.
+pub fn masks_menu(n: usize, full_upto: usize) -> Vec<Option<Vec<bool>>> {
+    let thorough = THOROUGH_MENU.load(std::sync::atomic::Ordering::Relaxed);
+    let mut m: Vec<Option<Vec<bool>>> = vec![None];
+    if n <= full_upto {
+        m.extend(all_masks(n).into_iter().map(Some));
+        return m;
+    }
+    m.push(Some(vec![false; n]));
+    m.push(Some(vec![true; n]));
+    let (act, inact) = if thorough { ((0..n).collect::<Vec<_>>(), (0..n).collect::<Vec<_>>()) } else { (spaced(n, 8), spaced(n, if n > 24 { 4 } else { 8 })) };
+    for &i in &act {
+        let mut a = vec![false; n];
+        a[i] = true;
+        m.push(Some(a));
+    }
+    for &i in &inact {
+        let mut b = vec![true; n];
+        b[i] = false;
+        m.push(Some(b));
+    }
+    let (pa, pi) = if thorough { (20, 12) } else { (6, 6) };
+    for i in 0..n {
+        for j in i + 1..n {
+            if n <= pa {
+                let mut a = vec![false; n];
+                a[i] = true;
+                a[j] = true;
+                m.push(Some(a));
+            }
+            if n <= pi {
+                let mut b = vec![true; n];
+                b[i] = false;
+                b[j] = false;
+                m.push(Some(b));
+            }
+        }
+    }
+    let pats: [fn(usize, usize) -> bool; 6] = [|i, _| i % 2 == 0, |i, _| i % 2 == 1, |i, n| i < n / 2, |i, n| i >= n / 2, |i, _| i % 3 == 0, |i, _| i % 3 != 0];
+    for p in pats {
+        m.push(Some((0..n).map(|i| p(i, n)).collect()));
+    }
+    m
+}
+
+/// Minimal mask menu for checks whose per-cell verdict does not depend on the other cells' selection: every
+/// mask for n <= full_upto, beyond that none, all true, even / odd, first and last cell alone (thorough: `masks_menu`).
+pub fn masks_menu_min(n: usize, full_upto: usize) -> Vec<Option<Vec<bool>>> {
+    if n <= full_upto || THOROUGH_MENU.load(std::sync::atomic::Ordering::Relaxed) {
+        return masks_menu(n, full_upto);
+    }
+    let mut m: Vec<Option<Vec<bool>>> = vec![None, Some(vec![true; n])];
+    m.push(Some((0..n).map(|i| i % 2 == 0).collect()));
+    m.push(Some((0..n).map(|i| i % 2 == 1).collect()));
+    m.push(Some((0..n).map(|i| i == 0).collect()));
+    m.push(Some((0..n).map(|i| i == n - 1).collect()));
+    m
+}
